@@ -131,6 +131,10 @@ pub fn run_parse_case(id: &str, r: &mut Rng, out: &mut String) {
         ("SYM:2.125:1000.1255".to_string(), true),
         ("DUST:8:0.000001".to_string(), true),
         ("SYM:0:0".to_string(), true),
+        // a decimal comma or a thousands separator is not a number here
+        ("XYZ:100:1234,56".to_string(), false),
+        ("SYM:1,5:10".to_string(), false),
+        ("SYM:1,000:10".to_string(), false),
         ("SYM:1".to_string(), false),
         ("SYM:1:2:3".to_string(), false),
         (":1:2".to_string(), false),
